@@ -39,7 +39,9 @@ class Conc(object):
         return self.ids[u.split("-")[-1]]
 
     def path(self, u, k):
-        return "%s/%s dir" % (self.uid(u), self.kind.get(k, k))
+        # paths are free text, written and shown verbatim: legal spellings that are not normalised rotate in
+        base = "%s/%s dir" % (self.uid(u), self.kind.get(k, k))
+        return [base, base + "/", "./" + base, base.replace("/", "//", 1), "x/../" + base][self.rot % 5]
 
 
 def ini_parse(text):
